@@ -243,6 +243,9 @@ func pick(r *coqfmt.Rng, cs []cand) label {
 }
 
 func (w *world) do(l label) {
+	if w.stuck {
+		return // a goroutine is blocked or has panicked: the schedule ends here
+	}
 	if l.K == "start" {
 		if l.Tid == 0 {
 			l.Tid = w.nextTid
